@@ -82,6 +82,8 @@ def main(argv=None):
     env.load()
     mod = importlib.import_module("vf.harness." + prop.lower())
     hs = [h for h in mod.harnesses(a.tier) if a.only in h.name]
+    if len({h.name for h in hs}) != len(hs):
+        raise SystemExit("harness names are not unique: " + str(sorted(n for n in {h.name for h in hs} if [x.name for x in hs].count(n) > 1)))
     if seed:
         import random
         random.Random(seed).shuffle(hs)
